@@ -33,6 +33,8 @@ pub enum Arg {
     EntryPath(u8),
     /// the same with "/./" and "//" noise
     Noisy(u8),
+    /// the top-level directory (first path segment) of entry number i
+    FirstSegDir(u8),
 }
 
 #[derive(Clone, Debug, Serialize, Deserialize, PartialEq, Eq)]
@@ -320,6 +322,7 @@ fn arg_strings(spec: &Spec) -> Vec<String> {
             Arg::DotSlashRoot => "./t".to_string(),
             Arg::EntryPath(i) => spec.tree.get(*i as usize % n).map(|e| format!("t/{}", rel(entry_path(e)))).unwrap_or_else(|| "t".into()),
             Arg::Noisy(i) => spec.tree.get(*i as usize % n).map(|e| format!("t/./{}//", rel(entry_path(e)).replace('/', "//"))).unwrap_or_else(|| "t/.".into()),
+            Arg::FirstSegDir(i) => spec.tree.get(*i as usize % n).map(|e| format!("t/{}", rel(&entry_path(e)[..1]))).unwrap_or_else(|| "t".into()),
         })
         .collect()
 }
@@ -435,7 +438,18 @@ impl Property for C18 {
             1 => path_strategy().prop_map(|path| Entry::Dir { path }),
             3 => (path_strategy(), any::<u8>(), proptest::option::weighted(0.2, any::<u8>()), any::<bool>()).prop_map(|(path, to, ancestor, absolute)| Entry::Symlink { path, to, ancestor, absolute }),
         ];
-        let arg = prop_oneof![4 => Just(Arg::Root), 1 => Just(Arg::Dot), 1 => Just(Arg::DotSlashRoot), 2 => any::<u8>().prop_map(Arg::EntryPath), 1 => any::<u8>().prop_map(Arg::Noisy)];
+        let arg = prop_oneof![4 => Just(Arg::Root), 1 => Just(Arg::Dot), 1 => Just(Arg::DotSlashRoot), 2 => any::<u8>().prop_map(Arg::EntryPath), 1 => any::<u8>().prop_map(Arg::Noisy), 2 => any::<u8>().prop_map(Arg::FirstSegDir)];
+        // scenario: equally named files in two top-level directories, recorded through two arguments with both prefixes stripped
+        let collision = (0u8..SEGS.len() as u8, 0u8..SEGS.len() as u8, 0u8..SEGS.len() as u8, any::<u8>(), any::<u8>(), any::<bool>(), any::<bool>()).prop_map(|(d1, d2, name, f1, f2, same_content, one_arg)| {
+            let d2 = if d2 == d1 { (d1 + 1) % SEGS.len() as u8 } else { d2 };
+            Spec {
+                tree: vec![Entry::File { path: vec![d1, name], size: 1, fill: f1 }, Entry::File { path: vec![d2, name], size: 1, fill: if same_content { f1 } else { f2 } }],
+                args: if one_arg { vec![Arg::Root] } else { vec![Arg::FirstSegDir(0), Arg::FirstSegDir(1)] },
+                lstrip: Some(vec![3, 9]),
+                algs: Algs::Default,
+                run: None,
+            }
+        });
         let op = prop_oneof![
             3 => (path_strategy(), any::<u8>()).prop_map(|(p, f)| RunOp::Create(p, f)),
             1 => any::<u8>().prop_map(RunOp::Append),
@@ -443,7 +457,7 @@ impl Property for C18 {
             1 => (0u8..5).prop_map(RunOp::Echo),
             1 => (0u8..5).prop_map(RunOp::EchoErr),
         ];
-        (
+        let general = (
             proptest::collection::vec(entry, 0..8),
             proptest::collection::vec(arg, 1..4),
             proptest::option::weighted(0.5, proptest::collection::vec(any::<u8>(), 0..3)),
@@ -451,7 +465,8 @@ impl Property for C18 {
             proptest::option::weighted(0.3, (proptest::collection::vec(op, 0..4), prop_oneof![3 => Just(0u8), 1 => any::<u8>()], any::<bool>()).prop_map(|(ops, exit, run_dir_dot)| RunPlan { ops, exit, run_dir_dot })),
         )
             .prop_map(|(tree, args, lstrip, algs, run)| Spec { tree, args, lstrip, algs, run })
-            .boxed()
+            .boxed();
+        prop_oneof![12 => general, 1 => collision.boxed()].boxed()
     }
     fn check(spec: &Spec, env: &mut Env) -> Outcome {
         let mut o = Outcome::new();
